@@ -54,7 +54,19 @@ type Scenario struct {
 	HandleTimeoutMs int `json:"handle_timeout_ms,omitempty"`
 	// WriteTimeoutMs > 0: the adapter's <writetimeout> setting
 	WriteTimeoutMs int `json:"write_timeout_ms,omitempty"`
+	// IPv6: the server listens on, and the clients connect from, the IPv6 loopback address
+	IPv6 bool `json:"ipv6,omitempty"`
 }
+
+// ipv6OK: the machine has an IPv6 loopback (otherwise IPv6 scenarios run over IPv4)
+var ipv6OK = func() bool {
+	l, err := net.Listen("tcp", "[::1]:0")
+	if err != nil {
+		return false
+	}
+	l.Close()
+	return true
+}()
 
 type Case struct {
 	Scenarios []Scenario `json:"scenarios"`
@@ -70,6 +82,7 @@ func draw(rt *rapid.T) Case {
 		s.CtxTimeoutS = rapid.IntRange(4, 8).Draw(rt, "ctxTimeout")
 		s.HandleTimeoutMs = rapid.SampledFrom([]int{0, 0, 0, 1000, 2500}).Draw(rt, "handleTimeout")
 		s.WriteTimeoutMs = rapid.SampledFrom([]int{0, 0, 200, 3000}).Draw(rt, "writeTimeout")
+		s.IPv6 = rapid.IntRange(0, 3).Draw(rt, "ipv6") == 0
 		nc := rapid.IntRange(1, 4).Draw(rt, "nconns")
 		for j := 0; j < nc; j++ {
 			cn := Conn{BigReply: -1}
@@ -132,7 +145,11 @@ type scenResult struct {
 func runScenario(si int, s Scenario) scenResult {
 	d := &sleeper{}
 	p := tars.VerifBindDefaultApp(tars.NewTarsProtocol(d, nil, false))
-	conf := &transport.TarsServerConf{Proto: "tcp", Address: "127.0.0.1:0", MaxInvoke: s.MaxInvoke, QueueCap: s.QueueCap,
+	listenOn := "127.0.0.1:0"
+	if s.IPv6 && ipv6OK {
+		listenOn = "[::1]:0"
+	}
+	conf := &transport.TarsServerConf{Proto: "tcp", Address: listenOn, MaxInvoke: s.MaxInvoke, QueueCap: s.QueueCap,
 		AcceptTimeout: 500 * time.Millisecond, IdleTimeout: 600 * time.Second, TCPNoDelay: true, HandleTimeout: time.Duration(s.HandleTimeoutMs) * time.Millisecond, WriteTimeout: time.Duration(s.WriteTimeoutMs) * time.Millisecond,
 		TCPReadBuffer: 128 * 1024 * 1024, TCPWriteBuffer: 128 * 1024 * 1024} // the framework defaults (tars/setting.go)
 	srv := transport.NewTarsServer(p, conf)
@@ -488,6 +505,12 @@ func TestC12(t *testing.T) {
 		var cls []string
 		for _, s := range c.Scenarios {
 			cls = append(cls, fmt.Sprintf("pool-%d", s.MaxInvoke))
+			switch {
+			case s.IPv6 && ipv6OK:
+				cls = append(cls, "ipv6-loopback")
+			case s.IPv6:
+				cls = append(cls, "ipv6-unavailable-ran-over-ipv4")
+			}
 		}
 		st.CaseJSON(c, nt, cls...)
 		st.Class("scenarios", int64(len(c.Scenarios)))
